@@ -536,6 +536,10 @@ def call_method(ip, st, recv, name, args, kwargs):
         if st.branch(bad):
             _raise(UnicodeEncodeError, "surrogates not allowed")
         return enc_t
+    if getattr(recv, "is_text", False) and name == "find" and 1 <= len(args) <= 2 and not kwargs:
+        from .text import text_find
+
+        return text_find(st, recv, args[0], args[1] if len(args) > 1 else 0)
     if getattr(recv, "is_text", False) and name == "isascii" and recv.kind == "str" and not args:
         from .text import isascii_of_text
 
